@@ -38,6 +38,13 @@ TSAN_ATOMICS = [
     "-mllvm", "-tsan-instrument-func-entry-exit=0",
     "-mllvm", "-tsan-instrument-memintrinsics=0",
 ]
+# fine-grained mode: plain memory accesses are schedule points too (dsched's __tsan_read/write shims)
+TSAN_FINE = [
+    "-fsanitize=thread",
+    "-mllvm", "-tsan-instrument-memory-accesses=1",
+    "-mllvm", "-tsan-instrument-func-entry-exit=0",
+    "-mllvm", "-tsan-instrument-memintrinsics=0",
+]
 COMMON = ["-g", "-O1", "-I" + REPO, "-I" + REPO + "/dispenso/third-party", "-I" + VERIF + "/engine",
           "-D" + GUARD, "-pthread", "-fno-omit-frame-pointer", "-Wno-deprecated-declarations"]
 
@@ -45,6 +52,8 @@ VARIANTS = {
     "dsched": dict(cxx="clang++", std="c++14", flags=TSAN_ATOMICS + SMALL_TUNE + ["-DVF_E1"], link=[], dsched=True),
     "dschedD": dict(cxx="clang++", std="c++14", flags=TSAN_ATOMICS + ["-DVF_E1"], link=[], dsched=True),
     "dsched17": dict(cxx="clang++", std="c++17", flags=TSAN_ATOMICS + SMALL_TUNE + ["-DVF_E1"], link=[], dsched=True),
+    "dschedF": dict(cxx="clang++", std="c++14", flags=TSAN_FINE + SMALL_TUNE + ["-DVF_E1"], link=[], dsched=True),
+    "dschedF17": dict(cxx="clang++", std="c++17", flags=TSAN_FINE + SMALL_TUNE + ["-DVF_E1"], link=[], dsched=True),
     "native": dict(cxx="clang++", std="c++14", flags=[], link=[], dsched=False),
     "native17": dict(cxx="clang++", std="c++17", flags=[], link=[], dsched=False),
     "asan": dict(cxx="clang++", std="c++14",
